@@ -1105,6 +1105,17 @@ def note_map(repo: Repo, rep, P: str):
         g_ord = order_of(g_ret[0].args[0], "values")
     s_ord = "?"
     body = [st for st in stmts_of(s) if not (isinstance(st, ast.Expr) and isinstance(st.value, ast.Constant))]
+    # notes = list(self); self.update(zip(notes, value)): once-bound locals are written at their use
+    if len(body) > 1 and all(isinstance(st, ast.Assign) and len(st.targets) == 1 and isinstance(st.targets[0], ast.Name) for st in body[:-1]):
+        from ..packed import single_defs as _sd2, resolve_names as _rn2
+        import copy as _copy2
+        sd2 = _sd2(s)
+        last = _copy2.deepcopy(body[-1])
+        if isinstance(last, ast.Expr):
+            last.value = _rn2(last.value, sd2)
+        elif isinstance(last, ast.For):
+            last.iter = _rn2(last.iter, sd2)
+        body = [last]
     pairs = None
     if len(body) == 1 and isinstance(body[0], ast.For) and isinstance(body[0].target, ast.Tuple) and len(body[0].target.elts) == 2 \
             and all(isinstance(x, ast.Name) for x in body[0].target.elts) and len(body[0].body) == 1 and not body[0].orelse:
